@@ -131,6 +131,15 @@ func getCheckPointFromCtx(ctx context.Context) *checkpoint {
 	return nil
 }
 
+// clearCheckPoint removes the checkpoint carried by ctx (if any), so that a nested graph started from
+// the returned context does not resume from it.
+func clearCheckPoint(ctx context.Context) context.Context {
+	if getCheckPointFromCtx(ctx) == nil {
+		return ctx
+	}
+	return context.WithValue(ctx, checkPointKey{}, (*checkpoint)(nil))
+}
+
 func forwardCheckPoint(ctx context.Context, nodeKey string) context.Context {
 	cp := getCheckPointFromCtx(ctx)
 	if cp == nil {
